@@ -358,3 +358,13 @@ def build():
     C.assume("clean-up beyond the call of show_stop_callback(context) for every player is the players' clear_context "
              "(light stack removal is C09's remove_from_stack_by_key contract); other players are A-UNMODELLED")
     return C
+
+
+def build_extra():
+    """clean-up of a stopped show on a light: show_stop_callback -> light_player.clear_context ->
+    Light.remove_from_stack_by_key(context key); the light-stack contracts of C09 re-checked here"""
+    from . import C09
+    c = C09.build()
+    c.pid = "C17l"
+    c.only_verify = ["Light.remove_from_stack_by_key", "Light._remove_fade_out", "Light._remove_from_stack_by_key"]
+    return [c]
